@@ -1111,7 +1111,10 @@ fn program(r: &mut Rng, max: usize, log: &mut Vec<String>) {
                         let _ = catch(|| FloydWarshall::new(d).distances().center());
                     }
                     Val::AM(d) => {
-                        let _ = catch(|| Johnson75::new(d).circuits().len());
+                        // circuit enumeration is exponential: small or sparse inputs only
+                        if d.order() <= 8 || d.size() <= 2 * d.order() {
+                            let _ = catch(|| Johnson75::new(d).circuits().len());
+                        }
                         let _ = catch(|| Tarjan::new(d).components().len());
                         let _ = catch(|| (d.is_semicomplete(), d.is_tournament()));
                     }
